@@ -196,6 +196,7 @@ func VerifC09_CommandOnly() {
 	helpCmd := vBool("helpcmd")
 	t1 := vString("t1")
 	p := positional("p", "wrap", "help")
+	stop := []string{p, "--typo", "-"}[vInt("stop", 0, 2)]
 	opt := New()
 	setMode(opt, mode)
 	setUnknown(opt, um)
@@ -207,11 +208,11 @@ func VerifC09_CommandOnly() {
 		opt.HelpCommand("help", opt.Alias("?"))
 	}
 	vPhase("run")
-	rem, err := opt.Parse([]string{"wrap", "--flag", p, "--after", "--", t1})
+	rem, err := opt.Parse([]string{"wrap", "--flag", stop, "--after", "--", t1})
 	vObserve("err", err)
 	vObserve("rem", rem)
 	vAssert("command-only/no-error", err == nil)
-	vAssert("command-only/rest-verbatim", eqStrs(rem, []string{p, "--after", "--", t1}))
+	vAssert("command-only/rest-verbatim", eqStrs(rem, []string{stop, "--after", "--", t1}))
 	vAssert("command-only/before-stop", *flag)
 	vAssert("command-only/not-after-stop", !*after && !opt.Called("after"))
 	// the root itself keeps interpreting options behind a positional
